@@ -190,6 +190,49 @@ def check(res, rng, dump, cfg, unfiltered, other_dump):
             res.count('configurations_hiding_helper_traces')
 
 
+def check_reconfigured(res, rng, dump, unfiltered):
+    """One front-end object whose settings are changed between requests - any non-empty subset of the four, the rest
+    left as set: every request honours the settings as they are at that moment."""
+    from pykdebugparser.pykdebugparser import PyKdebugParser
+    p = PyKdebugParser()
+    p.color = False
+    cur = {'tid': None, 'classes': [], 'subs': [], 'process': None}
+    trail = []
+    for step in range(rng.randrange(2, 6)):
+        new = gen_config(rng, dump, with_process=dump['static_map'])
+        if rng.random() < 0.4:
+            # subclass filters are quantified over BSD subclasses (and the helper classes the statement names): a
+            # subclass of another class may split a composite from the records nested in it (MACH_vmfault 0x130 and
+            # its real-fault records 0x132; sampler 0x2500 and its data records), which the statement does not cover
+            sub = rng.choice([e.eventid >> 16 for e in dump['events'][:60] if (e.eventid >> 24) in (4, 3, 7)] or [0x040c])
+            new['classes'], new['subs'] = rng.choice(([sub >> 8], [], [sub >> 8, 0x21])), [sub]
+        attrs = rng.sample(('tid', 'classes', 'subs', 'process'), rng.choice((1, 1, 2, 4))) if step else list(cur)
+        for a in attrs:
+            setattr(p, {'tid': 'filter_tid', 'classes': 'filter_class', 'subs': 'filter_subclass',
+                        'process': 'filter_process'}[a], copy.copy(new[a]))
+            cur[a] = new[a]
+        cfg = dict(cur)
+        trail.append({k: (list(v) if isinstance(v, tuple) else v) for k, v in cfg.items()})
+        case = {'file': dump['data'], 'configs': trail}
+        verdict = user_filter(dump, cfg)
+        verdicts = {k: verdict(k) for k in unfiltered}
+        try:
+            got = [key(t) for t in p.traces(io.BytesIO(dump['data']))]
+        except Exception as x:
+            res.violation(f'c13-raises-{core.exc_name(x)}', f'request {step + 1} on a re-configured object under {cfg}: {x!r}', case)
+            return
+        gs = set(got)
+        want = [k for k in unfiltered if verdicts[k] or (verdicts[k] is None and k in gs)]
+        res.case((dump['data'], 'reconfigured', repr(trail)))
+        res.count('reconfigured_requests')
+        if got != want:
+            res.violation('c13-filtered-differs-after-reconfiguration',
+                          f'request {step + 1} on one front-end object after changing {attrs} (now tid={cfg["tid"]} classes='
+                          f'{list(cfg["classes"])} subclasses={[hex(x) for x in cfg["subs"]]} process={cfg["process"]!r}): '
+                          f'{len(got)} traces, the unfiltered run restricted to the filter has {len(want)}', case)
+            return
+
+
 def run(ctx):
     res = core.Result()
     rng = ctx.rng
@@ -213,6 +256,7 @@ def run(ctx):
                 cfg['tid'] = None      # the table model replays the whole stream; with a tid filter other threads'
                 res.count('process_filters_on_dumps_with_map_updates')   # map updates would not be consumed
             check(res, rng, dump, cfg, unfiltered, prev)
+        check_reconfigured(res, rng, dump, unfiltered)
         prev = dump
     if ctx.shard == 0:
         res.sample({'configuration': {'classes': [4], 'subclasses': ['0x301']},
@@ -230,6 +274,7 @@ def run(ctx):
     res.require('configurations_hiding_helper_traces', 10)
     res.require('formatted_requests_compared', 10)
     res.require('process_filters_on_dumps_with_map_updates', 10)
+    res.require('reconfigured_requests', 20)
     return res
 
 
